@@ -78,10 +78,10 @@ def canon(r):
     return ('other', type(r).__name__, repr(r)[:200])
 
 
-def outcome(fn, *a):
+def outcome(fn, *a, **k):
     try:
         with np.errstate(all='ignore'):
-            r = fn(*a)
+            r = fn(*a, **k)
     except Exception as ex:
         return ('raise', type(ex).__name__)
     return canon(r)
@@ -552,6 +552,297 @@ def unit_order_run(ctx, report=None):
 
 
 # ----------------------------------------------------------------------------------------------------
+# the same unit / order checks THROUGH THE MULTI-VALUED BRANCHES of the class layer:
+# vector-of-angles constructor forms and receivers holding 2..4 poses (`len(self) > 1` / list branches)
+
+def per_element(r, n, k=None, transposed=False):
+    """multi-valued result -> list of n flat float arrays (one per element), or None.
+    Objects: their data; arrays/lists of angles: (n,k), (k,n) or (n,) layouts are all accepted (the layout is C09's)"""
+    if hasattr(r, 'data') and not isinstance(r, np.ndarray):
+        if len(r.data) != n or any(x is None for x in r.data):
+            return None
+        return [np.asarray(x, dtype=float).flatten() for x in r.data]
+    if isinstance(r, tuple) and len(r) == 2 and k == 1:        # (theta(s), v(s)) of angvec
+        r = r[0]
+    try:
+        a = np.asarray(r, dtype=float)
+    except Exception:
+        return None
+    if k is None:
+        return None
+    if n == 1 and a.size == k:
+        return [a.flatten()]
+    if a.shape == (n, k) and not (transposed and n == k):
+        return [a[i] for i in range(n)]
+    if a.shape == (k, n):
+        return [a[:, i] for i in range(n)]
+    if k == 1 and a.shape == (n,):
+        return [a[i:i + 1] for i in range(n)]
+    return None
+
+
+def call(f, *a, **k):
+    try:
+        with np.errstate(all='ignore'):
+            return ('val', f(*a, **k))
+    except Exception as ex:
+        return ('raise', type(ex).__name__)
+
+
+def multi_ctor_entries():
+    """(name, multi(list_of_angle_items, container, unit), single(item_in_rad), per-item arity)"""
+    L = []
+    for cn, cls in (('SO3', SO3), ('SE3', SE3), ('UnitQuaternion', UnitQuaternion)):
+        for ax in ('Rx', 'Ry', 'Rz'):
+            m = getattr(cls, ax)
+            L.append((f'{cn}.{ax}', (lambda m: lambda A, c, u: m(c(A), u))(m), (lambda m: lambda a: m(a))(m), 1))
+    for ax in ('Rx', 'Ry', 'Rz'):
+        m = getattr(SE3, ax)
+        L.append((f'SE3.{ax}:t', (lambda m: lambda A, c, u: m(c(A), u, t=[1, 2, 3]))(m), (lambda m: lambda a: m(a, t=[1, 2, 3]))(m), 1))
+        m = getattr(Twist3, ax)
+        L.append((f'Twist3.{ax}', (lambda m: lambda A, c, u: m(c(A), u))(m), (lambda m: lambda a: m([a]))(m), 1))
+    L.append(('SO2', lambda A, c, u: SO2(c(A), unit=u), lambda a: SO2(a), 1))
+    tw3, tw2 = [1, 2, 3, 0.2, -0.3, 0.4], [1, 2, 0.5]
+    L.append(('Twist3.exp', lambda A, c, u: Twist3(tw3).exp(c(A), u), lambda a: Twist3(tw3).exp(a), 1))
+    L.append(('Twist2.exp', lambda A, c, u: Twist2(tw2).exp(c(A), u), lambda a: Twist2(tw2).exp(a), 1))
+    L.append(('Twist2[n].exp', lambda A, c, u: Twist2([np.array(tw2) * (i + 1) for i in range(len(A))]).exp(c(A), u), None, 1))
+    L.append(('Twist3[n].exp', lambda A, c, u: Twist3([np.array(tw3) * (i + 1) for i in range(len(A))]).exp(c(A), u),
+              None, 1))        # element i uses twist i: handled specially below
+    for cn, cls in (('SO3', SO3), ('SE3', SE3), ('UnitQuaternion', UnitQuaternion)):
+        L.append((f'{cn}.Eul', (lambda cls: lambda A, c, u: cls.Eul(c(A), unit=u))(cls), (lambda cls: lambda a: cls.Eul(a))(cls), 3))
+        for o1, o2 in ORDERS:
+            for o in (o1, o2):
+                L.append((f'{cn}.RPY:{o}', (lambda cls, o: lambda A, c, u: cls.RPY(c(A), unit=u, order=o))(cls, o),
+                          (lambda cls, o: lambda a: cls.RPY(a, order=o))(cls, o), 3))
+    return L
+
+
+CONTAINERS = [('list', lambda A: [list(a) if isinstance(a, (list, tuple)) else a for a in A]),
+              ('tuple', lambda A: tuple(tuple(a) if isinstance(a, (list, tuple)) else a for a in A)),
+              ('ndarray', lambda A: np.array(A, dtype=float))]
+
+
+def multi_acc_entries():
+    """(name, make_receiver(list of single objects), accessor(obj, unit), k = angles per element)"""
+    L = []
+    for cn, cls in (('SO3', SO3), ('SE3', SE3), ('UnitQuaternion', UnitQuaternion)):
+        L.append((f'{cn}.eul', cn, lambda X, u: X.eul(unit=u), 3))
+        if cn != 'UnitQuaternion':
+            L.append((f'{cn}.eul:flip', cn, lambda X, u: X.eul(unit=u, flip=True), 3))
+        L.append((f'{cn}.angvec', cn, lambda X, u: X.angvec(unit=u), 1))
+        for o1, o2 in ORDERS:
+            for o in (o1, o2):
+                L.append((f'{cn}.rpy:{o}', cn, (lambda o: lambda X, u: X.rpy(unit=u, order=o))(o), 3))
+    L.append(('SO2.theta', 'SO2', lambda X, u: X.theta(unit=u), 1))
+    L.append(('SE2.theta', 'SE2', lambda X, u: X.theta(unit=u), 1))
+    return L
+
+
+def make_receivers(rng, n):
+    from lib.gens import rand_rot
+    Rs = [rand_rot(rng) for _ in range(n)]
+    ths = [float(x) for x in rng.uniform(-3, 3, size=n)]
+    ts = [[float(x) for x in rng.uniform(-2, 2, size=3)] for _ in range(n)]
+    return {'SO3': [SO3(R, check=False) for R in Rs],
+            'SE3': [SE3(base.rt2tr(R, t), check=False) for R, t in zip(Rs, ts)],
+            'UnitQuaternion': [UnitQuaternion(base.r2q(R)) for R in Rs],
+            'SO2': [SO2(th) for th in ths],
+            'SE2': [SE2(t[0], t[1], th) for t, th in zip(ts, ths)]}, {'R_hex': [[float(x).hex() for x in R.flatten()] for R in Rs], 'theta': ths}
+
+
+# every class method with a unit/units/order parameter must be exercised above (single- AND multi-valued); found by reflection
+COVERED = {f'{c}.{m}' for c in ('SO3', 'SE3', 'UnitQuaternion') for m in ('Rx', 'Ry', 'Rz', 'Eul', 'RPY', 'AngVec', 'eul', 'rpy', 'angvec')} | \
+          {'SO2.theta', 'SE2.theta', 'SO2.Rand', 'SE2.Rand', 'Twist3.Rx', 'Twist3.Ry', 'Twist3.Rz', 'Twist3.exp', 'Twist2.exp'}
+COVERED_BASE = {'getunit', 'rot2', 'trot2', 'xyt2tr', 'tr2xyt', 'rotx', 'roty', 'rotz', 'trotx', 'troty', 'trotz', 'rpy2r', 'rpy2tr',
+                'eul2r', 'eul2tr', 'angvec2r', 'angvec2tr', 'tr2angvec', 'tr2eul', 'tr2rpy'}
+EXCLUDED = {'trprint', 'trprint2'}      # print entry points
+
+
+def reflect_coverage(ctx, report):
+    import inspect
+    for cls in (SO2, SE2, SO3, SE3, Quaternion, UnitQuaternion, Twist2, Twist3):
+        for n, m in inspect.getmembers(cls):
+            if n.startswith('_') or isinstance(m, property) or not callable(m):
+                continue
+            try:
+                ps = inspect.signature(m).parameters
+            except (TypeError, ValueError):
+                continue
+            if any(p in ps for p in ('unit', 'units', 'order')):
+                ctx.count('reflect:methods-with-unit-or-order')
+                if f'{cls.__name__}.{n}' not in COVERED:
+                    report(f'table:uncovered:{cls.__name__}.{n}', f"{cls.__name__}.{n} takes a unit/order argument but is not in the tables of props/C15.py",
+                           {'method': f'{cls.__name__}.{n}'})
+    for n in base.__all__:
+        f = getattr(base, n, None)
+        try:
+            ps = inspect.signature(f).parameters
+        except (TypeError, ValueError):
+            continue
+        if any(p in ps for p in ('unit', 'units', 'order')) and n not in COVERED_BASE and n not in EXCLUDED:
+            report(f'table:uncovered:base.{n}', f"base.{n} takes a unit/order argument but is not in the tables of props/C15.py", {'function': n})
+
+
+def multi_run(ctx, report=None):
+    report = report or ctx.fail
+    rng = ctx.rng
+    reps = ctx.n(2, 12)
+    tol = 1e-11
+    reflect_coverage(ctx, report)
+
+    def elems_close(got, exp):
+        return got is not None and len(got) == len(exp) and all(
+            g.shape == e.shape and (np.array_equal(np.isnan(g), np.isnan(e)) and np.all(np.abs(np.nan_to_num(g - e)) <= tol)) for g, e in zip(got, exp))
+
+    # ---- accepted angles, vector-of-angles / list-of-triples constructor forms
+    for name, multi, single, ar in multi_ctor_entries():
+        for n in (2, 3, 4):
+            for rep in range(reps):
+                if ar == 1:
+                    A = [float(x) for x in (rng.uniform(-400, 400, size=n) if rep else [90.0, -45.0, 30.0, 720.0][:n])]
+                    Arad = [a * math.pi / 180 for a in A]
+                else:
+                    A = [[float(x) for x in rng.uniform(-170, 170, size=3)] for _ in range(n)]
+                    Arad = [[x * math.pi / 180 for x in a] for a in A]
+                for cname, c in CONTAINERS:
+                    ctx.case(('multi-in', name, n, cname, repr(A)))
+                    ctx.count('multi:in:cases')
+                    rd, rr = call(multi, A, c, 'deg'), call(multi, Arad, c, 'rad')
+                    rep_ = {'entry': name, 'n': n, 'container': cname, 'angles_deg': A}
+                    if rr[0] == 'raise':
+                        ctx.count(f'multi:in:unsupported-form (raises for rad too): {name}:{cname}')
+                        if rd[0] != 'raise':
+                            report(f'unit:in-multi:{name}:value-where-rad-raises', f"{name}({cname} of {n}): unit='deg' gives a value but unit='rad' raises {rr[1]}", rep_)
+                        continue
+                    if rd[0] == 'raise':
+                        report(f'unit:in-multi:{name}:raises', f"{name}({cname} of {n} angles {A}, unit='deg') raises {rd[1]} although unit='rad' works", rep_)
+                        continue
+                    ed, er = per_element(rd[1], n), per_element(rr[1], n)
+                    if single is not None:
+                        es = []
+                        for a in Arad:
+                            r1 = call(single, a)
+                            p1 = per_element(r1[1], 1) if r1[0] == 'val' else None
+                            es.append(p1[0] if p1 else np.full(1, np.inf))
+                    else:
+                        es = er
+                    if not elems_close(ed, es):
+                        which = 'broadcast' if not elems_close(er, es) else 'unit'
+                        bad = next((i for i in range(n) if ed is None or i >= len(ed) or not elems_close([ed[i]], [es[i]])), 0)
+                        rep_.update({'element': bad, 'observed': None if ed is None or bad >= len(ed) else ed[bad].tolist(), 'expected_from_single_rad_call': es[bad].tolist()})
+                        if which == 'unit':
+                            report(f'unit:in-multi:{name}:differs',
+                                   f"{name}({cname} of {n} angles {A}, unit='deg'): element {bad} is not the single-valued result for {A[bad]}*pi/180 rad "
+                                   f"(observed {rep_['observed']}, expected {rep_['expected_from_single_rad_call']})", rep_)
+                        else:
+                            report(f'multi:broadcast:{name}:{cname}',
+                                   f"{name}({cname} of {n}): the multi-valued RADIAN result already differs from the single-valued calls (a C09 matter, not a unit one)", rep_)
+                if rep == 0:
+                    for u in BAD_UNITS:
+                        r = call(multi, A, CONTAINERS[0][1], u)
+                        ctx.case(('multi-bad-unit', name, n, repr(u)))
+                        ctx.count('multi:bad-unit:cases')
+                        if r[0] != 'raise' and call(multi, A, CONTAINERS[0][1], 'rad')[0] != 'raise':
+                            report(f'unit:unknown-accepted-multi:{name}', f"{name}(list of {n}): unknown unit {u!r} for input angles is not rejected",
+                                   {'entry': name, 'n': n, 'unit': repr(u)})
+    # order aliases / unknown orders through the list-of-triples constructor branch
+    for cn, cls in (('SO3', SO3), ('SE3', SE3), ('UnitQuaternion', UnitQuaternion)):
+        A = [[0.3, -0.4, 0.5], [1.0, 0.2, -0.7], [-0.5, 0.9, 0.1]]
+        if call(cls.RPY, A)[0] == 'raise':
+            ctx.count(f'multi:orders:unsupported-form: {cn}.RPY(list of triples)')
+            continue
+        for o1, o2 in ORDERS:
+            r1, r2 = outcome(cls.RPY, A, order=o1), outcome(cls.RPY, A, order=o2)
+            ctx.case(('multi-order', cn, o1))
+            ctx.count('multi:orders:cases')
+            if r1 != r2 or r1[0] == 'raise':
+                report(f'order:alias-differs-multi:{cn}.RPY', f"{cn}.RPY(list of triples): order {o2!r} is not the same as its alias {o1!r}", {'entry': cn + '.RPY', 'order': o1, 'alias': o2})
+        for bo in BAD_ORDERS:
+            r = outcome(cls.RPY, A, order=bo)
+            ctx.count('multi:orders:bad:cases')
+            if r[0] != 'raise':
+                report(f'order:unknown-accepted-multi:{cn}.RPY', f"{cn}.RPY(list of triples): unknown order {bo!r} is not rejected", {'entry': cn + '.RPY', 'order': repr(bo)})
+    # ---- returned angles, receivers holding n poses
+    for n in (2, 3, 4):
+        for rep in range(reps):
+            recv, desc = make_receivers(rng, n)
+            for name, cn, acc, k in multi_acc_entries():
+                singles = recv[cn]
+                X = type(singles[0])([x.A if hasattr(x, 'A') else x for x in singles]) if cn != 'UnitQuaternion' else UnitQuaternion([q.vec for q in singles])
+                ctx.case(('multi-out', name, n, rep, desc['theta'][0]))
+                ctx.count('multi:out:cases')
+                rd, rr = call(acc, X, 'deg'), call(acc, X, 'rad')
+                rep_ = dict(desc, entry=name, n=n)
+                if rr[0] == 'raise':
+                    ctx.count(f'multi:out:unsupported (raises for rad too, C09): {name}')
+                    if rd[0] != 'raise':
+                        report(f'unit:out-multi:{name}:value-where-rad-raises', f"{name} on {n} poses: unit='deg' gives a value but unit='rad' raises", rep_)
+                    continue
+                if rd[0] == 'raise':
+                    report(f'unit:out-multi:{name}:raises', f"{name}(unit='deg') on a {cn} holding {n} poses raises {rd[1]} although unit='rad' works", rep_)
+                    continue
+                es = []
+                for x in singles:
+                    r1 = call(acc, x, 'rad')
+                    p1 = per_element(r1[1], 1, k) if r1[0] == 'val' else None
+                    es.append(p1[0] * 180 / math.pi if p1 else np.full(k, np.inf))
+                ed, er = per_element(rd[1], n, k), per_element(rr[1], n, k)
+                if n == k and not elems_close(None if er is None else [e * 180 / math.pi for e in er], es):
+                    # square result: the layout may be (k, n); the RADIAN result decides which layout it is
+                    ed, er = per_element(rd[1], n, k, True), per_element(rr[1], n, k, True)
+                if not elems_close(ed, es):
+                    rad_ok = elems_close(None if er is None else [e * 180 / math.pi for e in er], es)
+                    bad = next((i for i in range(n) if ed is None or i >= len(ed) or not elems_close([ed[i]], [es[i]])), 0)
+                    rep_.update({'element': bad, 'observed_deg': None if ed is None or bad >= len(ed) else ed[bad].tolist(), 'expected_deg_from_single_rad_call': es[bad].tolist()})
+                    if rad_ok:
+                        report(f'unit:out-multi:{name}:differs',
+                               f"{name}(unit='deg') on a {cn} holding {n} poses: element {bad} is {rep_['observed_deg']} but the single-valued "
+                               f"radian result times 180/pi is {rep_['expected_deg_from_single_rad_call']}", rep_)
+                    else:
+                        report(f'multi:broadcast:{name}',
+                               f"{name} on a {cn} holding {n} poses: the multi-valued RADIAN result already differs from the single-valued calls (a C09 matter, not a unit one)", rep_)
+            # orders on multi-valued receivers
+            if rep == 0:
+                for cn in ('SO3', 'SE3', 'UnitQuaternion'):
+                    singles = recv[cn]
+                    X = type(singles[0])([x.A for x in singles]) if cn != 'UnitQuaternion' else UnitQuaternion([q.vec for q in singles])
+                    if call(X.rpy)[0] == 'raise':
+                        continue
+                    for o1, o2 in ORDERS:
+                        r1, r2 = outcome(X.rpy, order=o1), outcome(X.rpy, order=o2)
+                        ctx.count('multi:orders:cases')
+                        if r1 != r2 or r1[0] == 'raise':
+                            report(f'order:alias-differs-multi:{cn}.rpy', f"{cn}.rpy on {n} poses: order {o2!r} is not the same as its alias {o1!r}", {'entry': cn + '.rpy', 'n': n})
+                    if len({outcome(X.rpy, order=o1) for o1, _ in ORDERS}) != 3:
+                        report(f'order:not-distinguished-multi:{cn}.rpy', f"{cn}.rpy on {n} poses: two different orders give the same result", {'entry': cn + '.rpy', 'n': n})
+                    for bo in BAD_ORDERS:
+                        r = outcome(X.rpy, order=bo)
+                        ctx.count('multi:orders:bad:cases')
+                        if r[0] != 'raise':
+                            report(f'order:unknown-accepted-multi:{cn}.rpy', f"{cn}.rpy on {n} poses: unknown order {bo!r} is not rejected", {'entry': cn + '.rpy', 'order': repr(bo), 'n': n})
+    # ---- Rand(unit=...): same random stream, range given in degrees vs in radians
+    for cn, cls, kw in (('SO2', SO2, {}), ('SE2', SE2, {'xrange': (-2, 3), 'yrange': (1, 4)})):
+        for n in (1, 3):
+            st = int(rng.integers(0, 2 ** 31))
+            np.random.seed(st)
+            rd = call(cls.Rand, arange=(10, 50), unit='deg', N=n, **kw)
+            np.random.seed(st)
+            rr = call(cls.Rand, arange=(10 * math.pi / 180, 50 * math.pi / 180), unit='rad', N=n, **kw)
+            ctx.case(('rand', cn, n, st))
+            ctx.count('multi:rand:cases')
+            ed = per_element(rd[1], n) if rd[0] == 'val' else None
+            er = per_element(rr[1], n) if rr[0] == 'val' else None
+            if rr[0] == 'raise' and rd[0] == 'raise':
+                ctx.count(f'multi:rand:unsupported: {cn}.Rand')
+            elif ed is None or er is None or not elems_close(ed, er):
+                report(f'unit:in-multi:{cn}.Rand:differs', f"{cn}.Rand(arange=(10,50), unit='deg', N={n}) differs from the same draw with the range in radians",
+                       {'entry': cn + '.Rand', 'numpy_seed': st, 'N': n})
+        for u in BAD_UNITS:
+            if call(cls.Rand, arange=(10, 50), unit=u, N=2, **kw)[0] != 'raise':
+                report(f'unit:unknown-accepted-multi:{cn}.Rand', f"{cn}.Rand: unknown unit {u!r} is not rejected", {'entry': cn + '.Rand', 'unit': repr(u)})
+
+
+# ----------------------------------------------------------------------------------------------------
 # T-sym traces: unit='deg' vs unit='rad', separate scalars vs packed vector, order aliases
 
 class sympi:
@@ -765,6 +1056,8 @@ def run(ctx):
         diff_run(ctx)
     with ctx.timed('oracle:units-orders-callforms'):
         unit_order_run(ctx)
+    with ctx.timed('oracle:multi-valued'):
+        multi_run(ctx)
     ctx.stats['table:entries'] = len(table())
     ctx.stats['traces'] = len(g.traces)
 
@@ -779,6 +1072,7 @@ if __name__ == '__main__':
         seen.setdefault(key, []).append(what)
     diff_run(ctx, report=rep)
     unit_order_run(ctx, report=rep)
+    multi_run(ctx, report=rep)
     for k, v in seen.items():
         print(f"{k}  [{len(v)}]\n      {v[0][:260]}")
     print(len(seen), 'keys;', ctx.evaluations, 'cells')
